@@ -768,6 +768,30 @@ func TestVerifC06(t *testing.T) {
 			rep.Violation("C06/honest-handshake-fails", fmt.Sprintf("%s -> %s: req=%v resp=%v key=%s", pair[0].name, pair[1].name, reqErr, respErr, pubName(w, k)), nil)
 		}
 	}
+	// two sessions at the same time in one process: while session 1 is under way (after frame k of it has been
+	// written), a second honest session between other parties runs from start to end; both complete, each responder
+	// learns its own requester (nothing is shared between sessions)
+	for k := 1; k <= 4; k++ {
+		var inner struct {
+			reqErr, respErr error
+			key             p2pcrypto.PubKey
+			ran             bool
+		}
+		_, reqErr, key, respErr, pan := honestRunFull(w.A, w.B, w.B.sk.GetPublic(), func(i int, f []byte) []byte {
+			if i == k && !inner.ran {
+				inner.ran = true
+				_, inner.reqErr, inner.key, inner.respErr, _ = honestRunFull(w.M, w.B, w.B.sk.GetPublic(), nil)
+			}
+			return f
+		})
+		ok1 := reqErr == nil && respErr == nil && pan == nil && key != nil && key.Equals(w.A.sk.GetPublic())
+		ok2 := inner.ran && inner.reqErr == nil && inner.respErr == nil && inner.key != nil && inner.key.Equals(w.M.sk.GetPublic())
+		rep.Eval(fmt.Sprintf("honest-interleaved/after-frame-%d/outer-ok=%v/inner-ok=%v", k, ok1, ok2))
+		rep.AddTransitions(1)
+		if !ok1 || !ok2 {
+			rep.Violation("C06/honest-handshakes-interfere", fmt.Sprintf("session A->B is interrupted after its frame %d by a complete session M->B in the same process: outer req=%v resp=%v key=%s; inner req=%v resp=%v key=%s", k, reqErr, respErr, pubName(w, key), inner.reqErr, inner.respErr, pubName(w, inner.key)), map[string]interface{}{"after_frame": k})
+		}
+	}
 	// the same honest run over the real framing (length-delimited reader/writer as the contact-request manager sets
 	// them up) on a byte stream that hands over at most n bytes per read
 	for _, chunk := range []int{0, 1, 2, 7, 64} {
